@@ -85,10 +85,79 @@ def owned (r : Realm) (key : List UInt8) : Prop := ∃ a ∈ ([0, 1, 2, 3] : Lis
 /-! ## line protocol: sessions of several instances, possibly in one database -/
 open Hive.Proto
 
+/-! ### the serializers an instance of the harness is constructed with
+
+One letter each for the identifier, the key and the value serializer: `i` the bytes themselves, `p` one
+leading tag byte, `r` the bytes in reverse order, `l` one leading length byte.  All of them round-trip.  The
+sequential model works on the *stored* (encoded) keys and values — `Op.set (k : Option Key)` is the result of
+`keyToBytes` — so the serializers live in the line protocol: requests are encoded, answers decoded; `peek`
+shows the raw keys as stored (their order is the byte order of the stored form).  The identifier serializer
+never shows in an answer of the round-tripping serializers (`Hive/Model/AdsId.lean` models where the code goes
+through it and where it uses the raw root). -/
+structure Codec where
+  id : Char := 'i'
+  key : Char := 'i'
+  val : Char := 'i'
+
+def tagKey : UInt8 := 0x4B
+def tagVal : UInt8 := 0x56
+
+def encWith (c : Char) (tag : UInt8) (b : List UInt8) : List UInt8 :=
+  if c == 'p' then tag :: b
+  else if c == 'r' then b.reverse
+  else if c == 'l' then UInt8.ofNat b.length :: b
+  else b
+
+def decWith (c : Char) (b : List UInt8) : List UInt8 :=
+  if c == 'p' || c == 'l' then b.drop 1 else if c == 'r' then b.reverse else b
+
+/-- `map`, `mapa`, `set`, optionally followed by `:<id><key><val>` (the set flavour's values are `types.Empty`). -/
+def parseFlavour (tok : String) : Option Codec :=
+  let ok (c : Char) : Bool := c == 'i' || c == 'p' || c == 'r' || c == 'l'
+  match tok.splitOn ":" with
+  | [fl] => if fl == "map" || fl == "mapa" || fl == "set" then some {} else none
+  | [fl, cs] =>
+    match cs.toList with
+    | [a, b, c] =>
+      if (fl == "map" || fl == "mapa" || (fl == "set" && c == 'i')) && ok a && ok b && ok c
+      then some { id := a, key := b, val := c } else none
+    | _ => none
+  | _ => none
+
+/-- The configuration of an instance: the value decoder sees the payload of the stored value. -/
+def cfgC (cd : Codec) : Cfg R0 :=
+  { rootOf := id
+    dec := fun b =>
+      -- the tag / length byte is missing in the nil slice that `Stream` gets for a raw key without a leaf
+      -- (an instance reopened with un-committed changes): the serializers `p` and `l` refuse it
+      if (cd.val == 'p' || cd.val == 'l') && b.isEmpty then .fail else harnessDec (decWith cd.val b) }
+
+def encKeyC (cd : Codec) (kb : List UInt8) : Option Key := (encArg kb).map (encWith cd.key tagKey)
+def encValC (cd : Codec) (vb : List UInt8) : Option Val := (encArg vb).map (encWith cd.val tagVal)
+
+def parseOpC (cd : Codec) : List String → Option Op
+  | ["set", k, v] => do
+      let kb ← unhex k
+      let vb ← parseVal v
+      pure (.set (encKeyC cd kb) (encValC cd vb))
+  | ["add", k] => do
+      let kb ← unhex k
+      pure (.set (encKeyC cd kb) (some []))
+  | ["get", k] => (unhex k).map (fun kb => .get (encKeyC cd kb))
+  | ["has", k] => (unhex k).map (fun kb => .has (encKeyC cd kb))
+  | ["del", k] => (unhex k).map (fun kb => .del (encKeyC cd kb))
+  | toks => parseOp toks
+
+def showOutC (cd : Codec) : Out R0 → String
+  | .found v => "found " ++ hex (decWith cd.val v)
+  | .streamed ps e => showOut (.streamed (ps.map fun p => (decWith cd.key p.1, decWith cd.val p.2)) e)
+  | o => showOut o
+
 structure RInst where
   db : Nat
   realm : Realm
   mem : KV
+  cd : Codec := {}
 
 structure Sess where
   dbs : List (Nat × DB R0)
@@ -109,12 +178,12 @@ def parseRealm (s : String) : Option Realm :=
   ((s.splitOn "/").mapM unhex).map List.flatten
 
 /-- The constructor over a store view: nothing is in memory, the trie is imported if a root is stored. -/
-def openAt (ss : Sess) (i d : Nat) (r : Realm) : Sess × String :=
+def openAt (ss : Sess) (i d : Nat) (r : Realm) (cd : Codec := {}) : Sess × String :=
   match ss.db d with
   | none => (ss, "nodb")
   | some db =>
-    let (db', mem', _) := stepAt cfg0 layout db r [] .reopen
-    ((ss.putDb d db').putInst i { db := d, realm := r, mem := mem' }, "ok")
+    let (db', mem', _) := stepAt (cfgC cd) layout db r [] .reopen
+    ((ss.putDb d db').putInst i { db := d, realm := r, mem := mem', cd := cd }, "ok")
 
 /-- `rmw <i> <key> <byte>` — read-modify-write-back: `v := Get(key)`; the first byte of `v` is replaced;
 `Set(key, v)`.  A failed or empty `Get` ends it with `Get`'s answer (`empty` for the empty value). -/
@@ -125,13 +194,15 @@ def rmwLine (ss : Sess) (i : Nat) (x : RInst) (args : List String) : Sess × Str
     match unhex k, unhex b with
     | some kb, some [nb] =>
       if nb.toNat ≥ 0x80 then (ss, "bad-op") else
-      let (db₁, mem₁, o₁) := stepAt cfg0 layout db x.realm x.mem (.get (encArg kb))
+      let (db₁, mem₁, o₁) := stepAt (cfgC x.cd) layout db x.realm x.mem (.get (encKeyC x.cd kb))
       match o₁ with
-      | .found [] => ((ss.putDb x.db db₁).putInst i { x with mem := mem₁ }, "empty")
-      | .found (_ :: rest) =>
-        let (db₂, mem₂, o₂) := stepAt cfg0 layout db₁ x.realm mem₁ (.set (encArg kb) (encArg (nb :: rest)))
-        ((ss.putDb x.db db₂).putInst i { x with mem := mem₂ }, showOut o₂)
-      | o => ((ss.putDb x.db db₁).putInst i { x with mem := mem₁ }, showOut o)
+      | .found vb =>
+        match decWith x.cd.val vb with
+        | [] => ((ss.putDb x.db db₁).putInst i { x with mem := mem₁ }, "empty")
+        | _ :: rest =>
+          let (db₂, mem₂, o₂) := stepAt (cfgC x.cd) layout db₁ x.realm mem₁ (.set (encKeyC x.cd kb) (encValC x.cd (nb :: rest)))
+          ((ss.putDb x.db db₂).putInst i { x with mem := mem₂ }, showOutC x.cd o₂)
+      | o => ((ss.putDb x.db db₁).putInst i { x with mem := mem₁ }, showOutC x.cd o)
     | _, _ => (ss, "bad-op")
   | _, _ => (ss, "bad-op")
 
@@ -158,17 +229,20 @@ def stepLine (ss : Sess) (toks : List String) : Sess × String :=
     match d.toNat? with
     | some d => (ss.putDb d DB.empty, "ok")
     | none => (ss, "bad-op")
-  | ["openr", i, _, d, realm] =>
-    match i.toNat?, d.toNat?, parseRealm realm with
-    | some i, some d, some r =>
-      -- the property speaks about instances whose key spaces do not overlap
-      if (ss.insts.filter (·.2.db == d)).all (fun x => compatible x.2.realm r) then openAt ss i d r
-      else (ss, "bad-op")
-    | _, _, _ => (ss, "bad-op")
-  | ["open", i, _] =>
-    match i.toNat? with
-    | some i => openAt (ss.putDb (1000000 + i) DB.empty) i (1000000 + i) []
-    | none => (ss, "bad-op")
+  | ["openr", i, fl, d, realm] =>
+    match i.toNat?, d.toNat?, parseRealm realm, parseFlavour fl with
+    | some i, some d, some r, some cd =>
+      match ss.db d with
+      | none => (ss, "nodb")
+      | some _ =>
+        -- the property speaks about instances whose key spaces do not overlap
+        if (ss.insts.filter (·.2.db == d)).all (fun x => compatible x.2.realm r) then openAt ss i d r cd
+        else (ss, "bad-op")
+    | _, _, _, _ => (ss, "bad-op")
+  | ["open", i, fl] =>
+    match i.toNat?, parseFlavour fl with
+    | some i, some cd => openAt (ss.putDb (1000000 + i) DB.empty) i (1000000 + i) [] cd
+    | _, _ => (ss, "bad-op")
   | verb :: i :: args =>
     match i.toNat? with
     | none => (ss, "bad-op")
@@ -178,18 +252,18 @@ def stepLine (ss : Sess) (toks : List String) : Sess × String :=
       | some x =>
         if verb == "rmw" then rmwLine ss i x args else
         if verb == "peek" then (ss, peekLine ss x args) else
-        match ss.db x.db, parseOp (verb :: args) with
+        match ss.db x.db, parseOpC x.cd (verb :: args) with
         | none, _ => (ss, "nodb")
         | _, none => (ss, "bad-op")
         | some db, some op =>
-          let (db', mem', o) := stepAt cfg0 layout db x.realm x.mem op
+          let (db', mem', o) := stepAt (cfgC x.cd) layout db x.realm x.mem op
           let ss' := (ss.putDb x.db db').putInst i { x with mem := mem' }
           match o with
           | .root _ =>
             -- roots are compared as equality classes: the first point of the session with these contents
             let pts := ss.points ++ [x.mem]
             ({ ss' with points := pts }, s!"class {classOf x.mem pts}")
-          | _ => (ss', showOut o)
+          | _ => (ss', showOutC x.cd o)
   | _ => (ss, "bad-op")
 
 end Hive.Ads
